@@ -264,6 +264,25 @@ pub fn generate(tier: &str, seed: u64, out: &mut Out) {
         }
     }
 
+    // ---- every transition of the requested length (and of the control points) between two
+    //      reads, over a length pool that covers every case of the length adjustment
+    let tl: Vec<Option<f64>> = vec![None, Some(50.0), Some(0.0), Some(-5.0), Some(1e-3), Some(3000.0), Some(-0.0)];
+    let reads = [Op::SpCurve, Op::SpCurveWithBufs, Op::SpBorrowed];
+    for from in 0..tl.len() {
+        for to in 0..tl.len() {
+            for (ri, r1) in reads.iter().enumerate() {
+                let r2 = reads[(ri + from + to) % 3];
+                for pts in [1usize, 3] {
+                    out.count("source:length-transitions");
+                    run_history(
+                        &History { mode: ((from + to) % 4) as u8, pool: small_pool(), lens: tl.clone(), ops: vec![Op::SetPoints(pts), Op::SetDist(from), *r1, Op::SetDist(to), r2, Op::SetPoints(0), reads[(ri + 1) % 3]] },
+                        out,
+                    );
+                }
+            }
+        }
+    }
+
     // ---- random long histories over random pools
     let n = if thorough { 2500 } else { 400 };
     for i in 0..n {
